@@ -2,6 +2,7 @@
 import hashlib
 import json
 import os
+import shutil
 from collections import Counter
 from fractions import Fraction
 
@@ -251,6 +252,32 @@ def run(tier, seed):
                 args += ["--json", os.path.join(d, "no_such_dir", "o.json")]
             elif r < 0.6:
                 args = ["-c", os.path.join(d, "missing.csv")] + args[2:]
+            if i < 42 or rng.random() < 0.1:
+                # an argument that is not valid UTF-8 (the byte 0xFF, written here with the file-system escape), or other odd text,
+                # as the value of an option or as a path: every place x every odd text once, then at random
+                ODD = ["\udcff", "1\udcfe", "0.5\udcc3", "\u00e9", "\u0661", "\u00a01"]
+                WHERE = ["kexp", "arearef", "red", "loc", "in", "out", "extra"]
+                odd, where = (ODD[i % 6], WHERE[i // 6]) if i < 42 else (rng.choice(ODD), rng.choice(WHERE))
+                stats["cli_odd_argument_%s" % where] += 1
+                if where == "kexp":
+                    args += ["-k", odd]
+                elif where == "arearef":
+                    args += ["-a", odd]
+                elif where == "red":
+                    args += [rng.choice(["--red1", "--red2"]), "1", odd, "0"]
+                elif where == "loc":
+                    args += ["-l", odd]
+                elif where == "in":
+                    cp2 = os.path.join(d, "c%d%s.csv" % (i, odd))
+                    try:
+                        shutil.copy(cp, cp2)
+                        args[1] = cp2
+                    except OSError:
+                        pass
+                elif where == "out":
+                    args += [rng.choice(["--json", "--xml", "--txt", "--oc", "--of"]), os.path.join(d, "o%d%s.out" % (i, odd))]
+                else:
+                    args += [odd]
             rr = cliflow.run_cli(args, d, timeout=30)
             R.evaluations += 1
             what = None
@@ -265,7 +292,7 @@ def run(tier, seed):
             stats["cli_exit_%s" % rr["exit"]] += 1
             if what:
                 if len(R.violations) < 6:
-                    R.violations.append((what.split(" (")[0][:70], {"what": what, "args": [a.replace(d, "<dir>") for a in args], "components": txt,
+                    R.violations.append((what.split(" (")[0][:70], {"what": what, "args": [a.replace(d, "<dir>").encode("utf-8", "backslashreplace").decode() for a in args], "components": txt,
                                                                     "factors": ftxt, "stderr": rr["stderr"][-600:]}))
             else:
                 R.cases_validated += 1
